@@ -189,7 +189,7 @@ func rmwResultSet(r *Report, p *Program, rule string) {
 		}
 		// the named result cell
 		var cell *ssa.Alloc
-		for _, b := range f.Blocks {
+		for _, b := range engine.BlocksInl(f) {
 			for _, in := range b.Instrs {
 				if a, ok := in.(*ssa.Alloc); ok && a.Comment == "result" {
 					cell = a
@@ -227,7 +227,7 @@ func rmwResultSet(r *Report, p *Program, rule string) {
 			}}.Find()
 			// what is handed back is the LIVE object (what GET returned, or what the write returned),
 			// never the caller's original: callers continue with it as "the current parent"
-			for _, b := range cl.Blocks {
+			for _, b := range engine.BlocksInl(cl) {
 				for _, in := range b.Instrs {
 					st, isS := in.(*ssa.Store)
 					if !isS || st.Addr != ssa.Value(fv) {
